@@ -1,6 +1,7 @@
 import Juniper.Proofs.TreeOps
 import Juniper.Proofs.TreeIter
 import Juniper.Proofs.TreeHandle
+import Juniper.Proofs.TreeSpecAdequacy
 /-!
 # C01 — tree.Map/Set answer every call exactly like an ideal sorted map (property theorems)
 
@@ -197,6 +198,61 @@ example : ∃ t' : Tree Int Int, ∃ outs,
   have := congrArg Prod.fst h2
   simp [specOps, specOp, sput] at this
   exact this.symm
+
+/-- non-vacuity with an order in which *equivalent* is coarser than *equal* (`coarse a b = a/10 - b/10`,
+a strict weak order): `Put 17` overwrites the value stored under `12` and keeps the stored key `12`,
+`Get 13` finds it. -/
+example : StrictWeak coarse ∧ ∃ t' : Tree Int Int, ∃ outs,
+    runOps coarse Tree.empty [.put 12 1, .put 17 2, .put 25 3, .get 13, .first, .last, .len] = some (t', outs) ∧
+      toList t'.root = [(12, 2), (25, 3)] ∧
+      outs = [.unit, .unit, .unit, .val (some 2), .entry (some (12, 2)), .entry (some (25, 3)), .int 2] := by
+  refine ⟨coarse_strictWeak, ?_⟩
+  obtain ⟨t', outs, h1, h2⟩ := history_refines (V := Int) coarse coarse_strictWeak
+    [.put 12 1, .put 17 2, .put 25 3, .get 13, .first, .last, .len]
+  refine ⟨t', outs, h1, ?_⟩
+  have e : specOps coarse ([] : List (Int × Int)) [.put 12 1, .put 17 2, .put 25 3, .get 13, .first, .last, .len] =
+      ([(12, 2), (25, 3)], [.unit, .unit, .unit, .val (some 2), .entry (some (12, 2)), .entry (some (25, 3)), .int 2]) := rfl
+  rw [e] at h2
+  exact ⟨(congrArg Prod.fst h2).symm, (congrArg Prod.snd h2).symm⟩
+
+/-- non-vacuity on a tree of two levels: 20 ascending `Put`s split the root (`0 < height`), then a
+`Delete`, a `Range` with an included and an excluded bound, a `RangeReverse` and `Len`. -/
+example : ∃ t' : Tree Int Int, ∃ outs,
+    runOps (fun a b => a - b) Tree.empty
+      ((List.range 20).map (fun (i : Nat) => Op.put (i : Int) (10 * (i : Int))) ++
+        [.del 3, .range ⟨some .incl, 2⟩ ⟨some .excl, 6⟩, .rrange ⟨some .unb, 0⟩ ⟨some .incl, 1⟩, .len]) = some (t', outs) ∧
+      0 < height t'.root ∧
+      outs.drop 20 = [.unit, .items [(2, some 20), (4, some 40), (5, some 50)], .items [(1, some 10), (0, some 0)], .int 19] := by
+  have hc : StrictWeak (fun a b : Int => a - b) := ⟨by intro a b; omega, by intro a b c; omega⟩
+  obtain ⟨t', outs, h1, hi, h2⟩ := runOps_refines hc
+    ((List.range 20).map (fun (i : Nat) => Op.put (i : Int) (10 * (i : Int))) ++
+      [.del 3, .range ⟨some .incl, 2⟩ ⟨some .excl, 6⟩, .rrange ⟨some .unb, 0⟩ ⟨some .incl, 1⟩, .len])
+    (Tree.empty : Tree Int Int) (inv_empty _)
+  have hl : ((specOps (fun a b : Int => a - b) (toList (Tree.empty : Tree Int Int).root)
+      ((List.range 20).map (fun (i : Nat) => Op.put (i : Int) (10 * (i : Int))) ++
+        [.del 3, .range ⟨some .incl, 2⟩ ⟨some .excl, 6⟩, .rrange ⟨some .unb, 0⟩ ⟨some .incl, 1⟩, .len])).1.length : Int) = 19 := by
+    simp only [Tree.empty, toList_leaf]; rfl
+  have ho : (specOps (fun a b : Int => a - b) (toList (Tree.empty : Tree Int Int).root)
+      ((List.range 20).map (fun (i : Nat) => Op.put (i : Int) (10 * (i : Int))) ++
+        [.del 3, .range ⟨some .incl, 2⟩ ⟨some .excl, 6⟩, .rrange ⟨some .unb, 0⟩ ⟨some .incl, 1⟩, .len])).2.drop 20 =
+      [.unit, .items [(2, some 20), (4, some 40), (5, some 50)], .items [(1, some 10), (0, some 0)], .int 19] := by
+    simp only [Tree.empty, toList_leaf]; rfl
+  rw [h2] at hl ho
+  exact ⟨t', outs, h1, height_pos_of_large hi.wf (by rw [hl]; decide), ho⟩
+
+/-- the ideal sorted map is a map: after `sput k v`, a lookup under any key *equivalent* to `k` yields
+`v` … -/
+theorem sget_sput_same (cmp : K → K → Int) (hc : StrictWeak cmp) (k k' : K) (v : V) (L : List (K × V))
+    (he : cmp k' k = 0) : (sget cmp k' (sput cmp k v L)).map (·.2) = some v :=
+  sget_sput_same_aux hc v he L
+
+/-- … and a lookup under a key that is not equivalent to `k` is unaffected. -/
+theorem sget_sput_other (cmp : K → K → Int) (hc : StrictWeak cmp) (k k' : K) (v : V) (L : List (K × V))
+    (hne : cmp k' k ≠ 0) : sget cmp k' (sput cmp k v L) = sget cmp k' L :=
+  sget_sput_other_aux hc v hne L
+
+example : sget (fun a b : Int => a - b) 2 (sput (fun a b : Int => a - b) 2 7 [(1, 10), (2, 20), (3, 30)]) = some (2, 7) ∧
+    sget coarse 15 (sput coarse 11 7 [(1, 10), (12, 20), (31, 30)]) = some (12, 7) := ⟨rfl, rfl⟩
 
 /-- A `Set` is a `Map` to `struct{}`: `Add`/`Remove`/`Contains`/`Len`/`First`/`Last`/`Range` forward to the
 same B-tree operations (generated forwarding fact), so every theorem above holds with `V := Unit`. -/
